@@ -247,7 +247,7 @@ static int cmd_worker(int argc, char **argv) {
     eng_write_file(cur, sb.s);
     runarg_t a = { sb.s, NULL };
     child_res_t cr;
-    eng_fork_run(child_run, &a, errpath, 600, &cr);
+    eng_fork_run(child_run, &a, errpath, 200, &cr);
     const char *cls = classify(&cr);
     if (strcmp(cls, "ok") && strcmp(cls, "SKIPPED")) {
       char fn[512], buf[300];
@@ -281,7 +281,7 @@ static int cmd_exec(int argc, char **argv, int explicit_out) {
   g_control = strstr(text, "\ncontrol ") != NULL;
   runarg_t a = { text, explicit_out ? decpath : NULL };
   child_res_t cr;
-  eng_fork_run(child_run, &a, errpath, 600, &cr);
+  eng_fork_run(child_run, &a, errpath, 200, &cr);
   const char *cls = classify(&cr);
   char buf[300];
   eng_first_line_matching(errpath, "rror", buf, sizeof buf);
